@@ -62,7 +62,12 @@ func generalizeErr(err error) error {
 		}
 	}
 
-	// if it is not a well known error, return it
+	// If it is not a well known error return it, but never with the connection's addresses: the
+	// text of a net.OpError names both endpoints, one of which is the client.
+	var opErr *net.OpError
+	if errors.As(err, &opErr) && opErr.Err != nil {
+		return opErr.Err
+	}
 	return err
 }
 
